@@ -25,6 +25,9 @@ import (
 
 func init() {
 	register("C10", genC10)
+	replayers["c10.ws"] = func(c *Ctx, m map[string]any) map[string]any {
+		return c12MembersOnly(c12Run(c, c12Texts(m["files"]), c12Texts(m["ups"])))
+	}
 	register("C11", genC11)
 	replayers["c10.hist"] = replayLoader
 	replayers["c11.hist"] = replayLoader
@@ -691,6 +694,12 @@ func genC10(c *Ctx) {
 	r := c.R
 	loaderMode(c)
 	lWitnesses10(c)
+	// 0. the other resolver: a workspace keeps its resolved include tree up to date across
+	//    edits; after every update it must hold exactly the files reachable from the root
+	//    (op c10.ws: the member/order projection of the update histories of C12)
+	genC12Workspaces(c, 4, func(files []c12File, ups []c12File) {
+		c.Emit("c10.ws", c12MembersOnly(c12Run(c, files, ups)))
+	})
 	// 1. every directed graph on 1, 2, 3 files, plain spelling, root f0
 	for n := 1; n <= 3; n++ {
 		for bits := uint(0); bits < 1<<(uint(n*n)); bits++ {
